@@ -128,6 +128,7 @@ class DrapeModel(GridObject):
             msg = f"Array of layers must be of shape (*, 3). Array of shape {xyz.shape} provided."
             raise ValueError(msg)
 
+        self._centroids = None
         self._layers = np.asarray(
             np.core.records.fromarrays(
                 xyz.T.tolist(),
@@ -174,6 +175,7 @@ class DrapeModel(GridObject):
         assert (
             xyz.shape[1] == 5
         ), f"Array of prisms must be of shape (*, 5). Array of shape {xyz.shape} provided."
+        self._centroids = None
         self._prisms = np.asarray(
             np.core.records.fromarrays(
                 xyz.T.tolist(),
